@@ -8,7 +8,7 @@ ID = "C03"
 LEVEL = "exploration"
 RULE = ("same-size families: every multiset of n files (n<=3 quick, <=5 thorough) over the variants {base, flipped at 0, "
         "at L/2, at L-1, at 4096} for L in {1,4096,4097,65536,131073}, laid out over 1-3 directories and 1-2 roots (one layout puts the second root on a loop-mounted ext4 image, i.e. a second device with its own hashing pool; one puts the files on two fresh tmpfs instances below one root, where the k-th files have equal inode numbers on different file systems), with "
-        "optional hard links and repeated / overlapping roots; plus three trees whose paths concatenate to the same bytes (ab/c vs a/bc; as hard links, plain copies and directories, also with -L / -H); x replication filter {default, --rf-over 0/2/3, "
+        "optional hard links and repeated / overlapping roots; trees of files with equal base names in different directories under a $IN transform and pools of 4-8 threads; plus three trees whose paths concatenate to the same bytes (ab/c vs a/bc; as hard links, plain copies and directories, also with -L / -H); x replication filter {default, --rf-over 0/2/3, "
         "--rf-under 2/3, --unique} x prefix/suffix sizes, disk kind, transform {keep, shrink to two bytes (also with -H)} (thorough: hash, cache, -t 1). "
         "Oracle: independent partition of the scanned files by bytes + replica count + strict filter; the reported set of "
         "path sets must be equal; no path twice; no unscanned path. Non-trivial = expected result has at least one "
@@ -120,6 +120,17 @@ def cases(tier, seed):
                         m2 = dict(meta, tr=["shrink", "pipe"], extra=extra + ml)
                         out.append({"tree": tree, "roots": roots, "args": args + ml + G.transform_args("shrink", "pipe"),
                                     "env": {"FCLONES_VERIF_DISK_KIND": disk}, "meta": m2})
+    # equal base names in different directories, transformed through private copies ($IN) by pools of several threads
+    for L in (10, 5000):
+        for ti, variants_ in enumerate(([0, 0, 1, 1, 2], [0, 1, 0, 1, 0, 1])):
+            vs = variants(L)
+            tree = [{"p": "r1/d%d/same.name" % i, "k": "file", "c": vs[v % len(vs)]} for i, v in enumerate(variants_)]
+            for flt in ([], ["--rf-over", "0"], ["--unique"]):
+                for threads in (["-t", "8"], ["-t", "default:4,4"]):
+                    meta = {"L": L, "combo": variants_, "layout": "same_base_names", "hard": False,
+                            "filter": " ".join(flt) or "default", "disk": "ssd", "extra": threads, "tr": ["keep", "in"]}
+                    out.append({"tree": tree, "roots": ["r1"], "args": ["--min", "0"] + flt + threads + G.transform_args("keep", "in"),
+                                "env": {"FCLONES_VERIF_DISK_KIND": "ssd"}, "meta": meta, "repeat": 2})
     # paths whose components concatenate to the same bytes (ab/c vs a/bc): as hard links of one file, as plain
     # duplicates, and as directories entered with -L
     collide = [
